@@ -110,8 +110,10 @@ void harness(void) {
   VASSERT(vm_live == base_live + te_keys_live + 1, "every losing key block was freed; handles released; main's handle remains");
   VWITNESS("end");
   if (te_keys_deleted > 0) VWITNESS("a first-use race was lost and resolved");
-#ifdef TWO
-  if (te_keys_deleted > 1) VWITNESS("two races lost");
+#if defined(TWO) && TE_DEPTH >= 2
+  if (te_keys_deleted > 1) VWITNESS("two races lost (B inside A inside main)");
+#elif defined(TWO)
+  if (te_preemptions > 1) VWITNESS("both threads ran inside main's operation");
 #endif
   if (te_preemptions > 0 && exit_code[0] != 0) VWITNESS("preempting thread exited with a code");
 }
